@@ -14,4 +14,4 @@ CONSTANTS
   AcceptPartialAgent = FALSE
 INIT SizeInit
 NEXT SizeNext
-INVARIANTS SizeOK InventoryLimitIsMaximal PingLimitIsExact PongLimitIsExact EmitSize
+INVARIANTS WorstCaseFits SizeOK InventoryLimitIsMaximal PingLimitIsExact PongLimitIsExact EmitSize
